@@ -2,7 +2,7 @@
 # usage: trypatch.sh <patch.diff> [jpverif args...]   — analyse a scratch worktree of /repo HEAD with the patch applied
 set -u
 P=$(readlink -f "$1"); shift
-WT=/tmp/wt/mut
+WT=${WT:-/tmp/wt/mut}
 if [ ! -d $WT ]; then git -C /repo worktree add --detach $WT HEAD >/dev/null 2>&1; fi
 git -C $WT reset -q --hard; git -C $WT clean -fdqx
 git -C $WT checkout -q --detach $(git -C /repo rev-parse HEAD) || { echo "cannot move scratch worktree to /repo HEAD"; exit 3; }
